@@ -168,46 +168,58 @@ def run(R, tier):
         R.anchor_lost("R18.4", "TryFrom<Token> for Amplitude")
         return
     b = bs[0]
-    enga = fdai.Engine(P, u, inline=lambda n, r: False, models={})
-    res = enga.run(b, [M.token(enga, "DecimalNumericSuffixProgramData")])
-    seen = {}
-    none_ok = False
-    for r in res:
-        guards = [e for e in r.trace if e.kind == "call" and "ends_with" in e.name.split("::")[-1]]
-        asg = [e for e in r.trace if e.kind == "assume" and e.name == "sym" and isinstance(e.args[0][2], tuple) and e.args[0][2][0] == "ret" and "ends_with" in e.args[0][2][1].split("::")[-1]]
-        lit = None
-        for g_, a_ in zip(guards, asg):
-            if a_.args[1] is True:
-                lit = C_bytes(g_.args[1])
-        v = r.retval
-        var = v.fields[0].name if isinstance(v, EnumV) and v.name == "Ok" and isinstance(v.fields.get(0), EnumV) else None
-        conv = [e for e in r.trace if e.kind == "call" and e.name.endswith("TryFrom::try_from")]
-        if lit is None:
-            if var == "None" and len(conv) == 1 and "tok-DecimalNumericSuffixProgramData-1" in repr(conv[0].args[0]):
-                none_ok = True
+    # The conversion is folded on concrete suffix texts: which Amplitude variant results and which (number, suffix)
+    # pair is handed to the unit's own conversion - independent of how the specifier is recognised and stripped.
+    from . import emit as E
+    enga = fdai.Engine(P, u, inline=D.inline_inherent(("scpi::parser::suffix::",)), models=dict(M.FOLD_MODELS), loop_limit=16, max_paths=64)
+    cases = []
+    for unit_txt in (b"V", b"mV", b"A", b"", b"DBM", b"K"):
+        for spec, var in ((b"", "None"), (b"PK", "Peak"), (b"pk", "Peak"), (b"Pk", "Peak"), (b"PP", "PeakToPeak"), (b"pP", "PeakToPeak"), (b"RMS", "Rms"), (b"rms", "Rms"), (b"rMs", "Rms")):
+            cases.append((unit_txt + spec, var, unit_txt))
+    # look-alikes that are not specifiers: the whole text goes to the unit conversion
+    for t in (b"VP", b"VRM", b"VPKS", b"VMS", b"PKV", b"VPEAK"):
+        cases.append((t, "None", t))
+    bad = []
+    for suffix, var, handed in cases:
+        tok = M.token(enga, "DecimalNumericSuffixProgramData", [E.sl(b"1.5"), E.sl(suffix)])
+        try:
+            res = enga.run(b, [tok])
+        except fdai.TooManyPaths:
+            bad.append("%r: undecided" % suffix)
             continue
-        if var is None:
+        oks = [r for r in res if M.outcome(r) == "Ok"]
+        got = set()
+        for r in oks:
+            v = r.retval.fields.get(0)
+            conv = [e for e in r.trace if e.kind == "call" and e.name.endswith("TryFrom::try_from")]
+            inner = None
+            if len(conv) == 1:
+                bs_ = _all_bytes(conv[0].args[0])
+                inner = tuple(bs_)
+            got.add((v.name if isinstance(v, EnumV) else repr(v), inner))
+        # the failing path of the inner conversion must surface as the unit's error
+        errs = [r for r in res if M.outcome(r).startswith("Err(")]
+        if got != {(var, (b"1.5", handed))} or not errs or len(oks) != 1 or any(r.outcome != "return" for r in res):
+            bad.append("%r: %s, expected %s with (1.5, %r) handed to the unit conversion" % (suffix, sorted(got, key=repr) or [M.outcome(r) for r in res], var, handed))
+    R.check(not bad, "R18.4", "Amplitude:table", "PK/PP/RMS in any letter case select Peak/PeakToPeak/Rms and are stripped before the unit conversion; anything else is Amplitude::None with the suffix untouched; the number is never altered (%d suffix texts)" % len(cases), "; ".join(bad[:4]), where=b.span)
+    for name in M.DATA:
+        if name == "DecimalNumericSuffixProgramData":
             continue
-        # the suffix handed on is s[..s.len() - k] with k = len(literal); the number is untouched
-        idx = [e for e in r.trace if e.kind == "call" and e.name.split("::")[-1] == "index"]
-        k = None
-        if len(idx) == 1:
-            rng = idx[0].args[1]
-            flat = repr(rng)
-            for cand in (1, 2, 3, 4):
-                if ("('binop', 'Sub'" in flat or "('binop', 'SubWithOverflow'" in flat) and "('K', %d)" % cand in flat and "len" in flat:
-                    k = cand
-        num_ok = len(conv) == 1 and "tok-DecimalNumericSuffixProgramData-0" in repr(conv[0].args[0])
-        seen[lit.decode()] = (var, k, num_ok)
-    exp = {"PK": ("Peak", 2, True), "PP": ("PeakToPeak", 2, True), "RMS": ("Rms", 3, True)}
-    R.check(seen == exp and none_ok, "R18.4", "Amplitude:table", "PK -> Peak, PP -> PeakToPeak, RMS -> Rms; specifier stripped (its own length), number untouched; otherwise Amplitude::None", "amplitude table is %s (expected %s)" % (seen, exp), where=b.span)
-    # the guard is case-insensitive: the local helper compares the tail with eq_ignore_ascii_case and guards its slice
-    helpers = [x for x in u.bodies if x.path.startswith(b.path.rsplit("::", 1)[0]) and "ends_with" in x.path.split("::")[-1]]
-    hb = [x for x in u.bodies if "ends_with_ignore_ascii" in x.path]
-    cmp_calls = []
-    for x in [b] + hb + u.closures_of(b):
-        for c in x.calls():
-            nm = c.name.split("::")[-1]
-            if nm in ("eq_ignore_ascii_case", "strip_suffix", "ends_with", "eq", "ne", "strip_prefix"):
-                cmp_calls.append(nm)
-    R.check(cmp_calls and set(cmp_calls) == {"eq_ignore_ascii_case"}, "R18.4", "Amplitude:case-insensitive", "amplitude specifiers are compared with eq_ignore_ascii_case only", "amplitude specifier comparison uses %s: matching must ignore letter case" % sorted(set(cmp_calls)), where=b.span)
+        res = enga.run(b, [M.token(enga, name)])
+        conv_ok = all(len([e for e in r.trace if e.kind == "call" and e.name.endswith("TryFrom::try_from")]) == 1 for r in res)
+        vars_ = {r.retval.fields[0].name for r in res if M.outcome(r) == "Ok" and isinstance(r.retval.fields.get(0), EnumV)}
+        R.check(conv_ok and vars_ <= {"None"} and bool(res), "R18.4", "Amplitude<-%s" % name, "delegated to the unit conversion (Amplitude::None)", "Amplitude from %s: %s" % (name, [M.outcome(r) for r in res]), where=b.span)
+
+
+def _all_bytes(snap):
+    out = []
+
+    def walk(t):
+        if isinstance(t, tuple):
+            if t and t[0] == "bytes":
+                out.append(t[1])
+                return
+            for x in t:
+                walk(x)
+    walk(snap)
+    return out
